@@ -5,8 +5,10 @@ C03 — report fidelity, part CobAde: the document structure of the Cobertura wr
 
 All theorems are about every result set: any number of files, any line map (`NodupKeys` is what a
 `BTreeMap` guarantees; counts are arbitrary naturals, so 2^64-1 is included), any branch map, any
-function list in any order (the hash-map iteration order is a parameter: statements go through
-membership / position in the given list).
+function list in any order: these core models take the table in the order it is LISTED; the
+writers list it in name order under the demangled names (`sorted_functions`, 73c9152; `demangle!`),
+which `Writers/FnOrder.lean` supplies – `FnOrder.cobertura dm` / `FnOrder.ade dm` are these models
+applied to `listed dm c`, and `Props/C03FnOrder.lean` has the order and demangling theorems.
 
 Cobertura carries the branch vectors only of lines that have a line entry: full branch fidelity is
 `C03_cob_tree_fidelity_stmt`, refuted by a closed witness (`…_false`, the known finding
